@@ -22,7 +22,7 @@ ASSUMPTIONS = [
     'timestamps and constraints are non-negative integers',
 ]
 NSH = 8
-NRANDOM = {'quick': 24_000, 'thorough': 1_000_000}
+NRANDOM = {'quick': 24_000, 'thorough': 3_000_000}
 
 
 def shards(tier, seed):
